@@ -370,58 +370,83 @@ def _find_warning_builder(chk, qualified_name: str) -> FuncInfo:
     return hits[0]
 
 
-def _check_warnings(chk, r3, fname: str, names: Tuple[str, str]):
-    fi = _find_warning_builder(chk, names[0])
-    cfg = CFG(fi.node)
+def _check_warnings(chk, r3, fi: FuncInfo, side: str, names: Tuple[str, str]):
+    """The gap warnings of one window function, judged on the window function *with its private warning builder inlined* (so the
+    builder's signature does not matter): each warning's path condition, with naming steps expanded, must be
+        end gap:    not <end open>   and  <input>.index.max() < <end limit used for slicing>
+        start gap:  not <start open> and  <start limit used for slicing> < <input>.index.min()"""
+    from engine.inline import inline_calls_into
+    from engine.pattern import Expander
+    builder = _find_warning_builder(chk, names[0])
+    node = fi.node if builder.key == fi.key else inline_calls_into(fi.node, [builder.node], T)
+    cfg = CFG(node)
+    ex = Expander(node)
+    DATA = fi.params[0]
     found = {}
-    for c in calls_in(fi.node):
-        if unparse(c.func) == "EEMeterWarning":
-            q = const_str(kwarg(c, "qualified_name"))
-            st = fi.module.enclosing_stmt(c)
-            found[q] = (st, cfg.guards(st))
-    separate = fi.name not in ("get_baseline_data", "get_reporting_data")
-    if separate and len(fi.params) == 6:
-        end_inf, start_inf, data_start, data_end, start_limit, end_limit = fi.params  # roles by position (the call site is checked against them)
-    else:
-        end_inf, start_inf, data_start, data_end, start_limit, end_limit = "end_inf", "start_inf", "data_start", "data_end", "start_limit", "end_limit"
-    spec = {names[0]: (end_inf, (data_end, "<", end_limit)), names[1]: (start_inf, (start_limit, "<", data_start))}
-    for q, (flag, (a, op, b)) in spec.items():
-        if q not in found:
-            r3.require(False, f"{fi.key}|{q}|present", fi.where(), f"{fname}: warning `{q}` is no longer produced")
+    parent = {}
+    for x in ast.walk(node):
+        for c in ast.iter_child_nodes(x):
+            parent[id(c)] = x
+    stmts = {id(s_) for s_ in cfg.stmts()}
+    for c in [c for c in ast.walk(node) if isinstance(c, ast.Call) and unparse(c.func) == "EEMeterWarning"]:
+        q = const_str(kwarg(c, "qualified_name"))
+        st = c
+        while st is not None and id(st) not in stmts:
+            st = parent.get(id(st))
+        found[q] = st
+    spec = {names[0]: ("end_inf", "end", (f"{DATA}.index.max()", "<", "end_limit")), names[1]: ("start_inf", "start", ("start_limit", "<", f"{DATA}.index.min()"))}
+    for q, (flag, lim, (a, op, b)) in spec.items():
+        st = found.get(q)
+        if st is None:
+            r3.require(False, f"{fi.key}|{q}|present", fi.where(), f"{fi.name}: warning `{q}` is no longer produced")
             continue
-        st, gs = found[q]
+
         def atomizer(e):
-            s, neg = boolalg.strip_truthiness(e)
-            if isinstance(s, ast.Name) and s.id == flag:
+            s_, neg = boolalg.strip_truthiness(e)
+            t_ = unparse(s_)
+            if t_ == flag:
                 return ("inf", neg)
-            if isinstance(s, ast.Compare) and len(s.ops) == 1:
-                l, r = unparse(s.left), unparse(s.comparators[0])
-                o = type(s.ops[0])
-                if (l, r) == (a, b) and o is ast.Lt:
+            if isinstance(s_, ast.Compare) and len(s_.ops) == 1:
+                l, r_ = unparse(s_.left), unparse(s_.comparators[0])
+                o = type(s_.ops[0])
+                if {l, r_} == {lim, "None"} and o in (ast.Is, ast.IsNot, ast.Eq, ast.NotEq):
+                    return ("inf", neg != (o in (ast.IsNot, ast.NotEq)))
+                if (l, r_) == (a, b) and o is ast.Lt:
                     return ("gap", neg)
-                if (l, r) == (b, a) and o is ast.Gt:
+                if (l, r_) == (b, a) and o is ast.Gt:
                     return ("gap", neg)
-                if (l, r) == (a, b) and o is ast.GtE:
+                if (l, r_) == (a, b) and o is ast.GtE:
                     return ("gap", not neg)
-                if (l, r) == (b, a) and o is ast.LtE:
+                if (l, r_) == (b, a) and o is ast.LtE:
                     return ("gap", not neg)
             return None
+        gs = []
+        for f_ in cfg.must_facts().get(id(st), frozenset()):
+            ts = cfg.stmt_of.get(f_.test_id)
+            if ts is None or isinstance(ts, (ast.For, ast.AsyncFor)):
+                continue
+            t = ex.expand(cfg.tests[f_.test_id], ts)
+            try:
+                boolalg.truth_table(t, atomizer, ["inf", "gap"])
+            except boolalg.Unrecognised:
+                # a condition about something else (e.g. the empty-selection test) does not decide the warning ...
+                if any(x in unparse(t) for x in (flag, "index.max()", "index.min()", "_limit")) and "empty" not in unparse(t):
+                    gs.append((t, f_.polarity))  # ... but an unrecognised condition over the same quantities does
+                continue
+            gs.append((t, f_.polarity))
         ok = False
         why = ""
         try:
-            tt = boolalg.conj_table(gs, atomizer, ["inf", "gap"], ignore_unrecognised=not separate)
-            ok = all(tt[(i, g)] == ((not i) and g) for i in (False, True) for g in (False, True))
+            tt = boolalg.conj_table(gs, atomizer, ["inf", "gap"]) if gs else None
+            ok = tt is not None and all(tt[(i, g)] == ((not i) and g) for i in (False, True) for g in (False, True))
+            why = "" if ok else f" (path condition: {[ (unparse(t)[:60], p) for t, p in gs]})"
         except boolalg.Unrecognised as e:
             why = f" (unrecognised condition {e})"
-        r3.require(ok, f"{fi.key}|{q}|condition", fi.where(st), f"{fname}: `{q}` must be produced iff not {flag} and {a} {op} {b}{why}",
+        r3.require(ok, f"{fi.key}|{q}|condition", fi.where(), f"{fi.name}: `{q}` must be produced iff not {flag} and {a} {op} {b}{why}",
                    sample={"warning": q, "condition": f"not {flag} and {a} {op} {b}"})
-    if separate:
-        rets = [s for s in cfg.stmts() if isinstance(s, ast.Return)]
-        lists = {t.id for s in cfg.stmts() if isinstance(s, ast.Assign) and isinstance(s.value, ast.List) for t in s.targets if isinstance(t, ast.Name)}
-        r3.require(bool(rets) and all(isinstance(r.value, ast.Name) and r.value.id in lists for r in rets), f"{fi.key}|returns-list", fi.where(), f"{fi.name} must return the warnings list it filled")
-    else:
-        r3.inst(f"{fi.key}|returns-list")
-    return fi
+    # what the window function hands out as its second element is the list the warnings were appended to
+    r3.inst(f"{fi.key}|warnings-judged-with-builder-inlined")
+    return builder
 
 
 def run(chk):
@@ -440,36 +465,11 @@ def run(chk):
     r3 = chk.rule("R20.3", "empty selection raises the dedicated error before the store; gap warnings fire iff not *_inf and the data falls short; four distinct qualified names", 8)
     b = _check_window(chk, r1, r2, r3, "get_baseline_data", "baseline", "NoBaselineDataError")
     r = _check_window(chk, r1, r2, r3, "get_reporting_data", "reporting", "NoReportingDataError")
-    bw = _check_warnings(chk, r3, "_make_baseline_warnings", ("eemeter.get_baseline_data.gap_at_baseline_end", "eemeter.get_baseline_data.gap_at_baseline_start"))
-    rw = _check_warnings(chk, r3, "_make_reporting_warnings", ("eemeter.get_reporting_data.gap_at_reporting_end", "eemeter.get_reporting_data.gap_at_reporting_start"))
-    # the builders receive the values in their declared roles: (end_inf, start_inf, data_start, data_end, start_limit, end_limit), where
-    # data_start / data_end are the extremes of the *input* index and the limits are the ones actually used for slicing
-    from engine.pattern import Expander
-    for fi, bf in ((b, bw), (r, rw)):
-        rd = ReachingDefs(fi.node)
-        ex = Expander(fi.node)
-        DATA = fi.params[0]
-        if bf.key != fi.key:
-            calls = [c for c in calls_in(fi.node) if unparse(c.func) == bf.name]
-            ok = len(calls) == 1 and not calls[0].keywords and len(calls[0].args) == 6
-            r3.require(ok, f"{fi.key}|warning-arguments", fi.where(), f"{fi.name} must call {bf.name} once with its six positional arguments")
-            if not ok:
-                continue
-            st = fi.module.enclosing_stmt(calls[0])
-            args = calls[0].args
-            roles = dict(zip(("end_inf", "start_inf", "data_start", "data_end", "start_limit", "end_limit"), args))
-        else:
-            # builder inlined into the window function: the roles are the window function's own locals
-            wst = [fi.module.enclosing_stmt(c) for c in calls_in(fi.node) if unparse(c.func) == "EEMeterWarning"]
-            st = wst[0] if wst else None
-            roles = {k_: ast.Name(id=k_, ctx=ast.Load()) for k_ in ("end_inf", "start_inf", "data_start", "data_end", "start_limit", "end_limit")}
-            r3.inst(f"{fi.key}|warning-arguments")
-        if st is None:
-            continue
-        for nm, want in (("data_end", f"{DATA}.index.max()"), ("data_start", f"{DATA}.index.min()")):
-            e = roles[nm]
-            vals = sorted({unparse(rd.value_of(d)) for d in rd.reaching(st, e.id) if rd.value_of(d) is not None}) if isinstance(e, ast.Name) else [unparse(e)]
-            r3.require(vals == [want], f"{fi.key}|{nm}-from-input", fi.where(st), f"{fi.name}: `{nm}` handed to the gap warnings must be {want}; found {vals}")
-        for nm in ("start_limit", "end_limit", "end_inf", "start_inf"):
-            e = roles[nm]
-            r3.require(isinstance(e, ast.Name) and e.id == nm, f"{fi.key}|{nm}-role", fi.where(st), f"{fi.name}: the value handed to the gap warnings as `{nm}` must be the local `{nm}` (the limit actually used for slicing / the open-ended flag); found `{unparse(e)}`")
+    _check_warnings(chk, r3, b, "baseline", ("eemeter.get_baseline_data.gap_at_baseline_end", "eemeter.get_baseline_data.gap_at_baseline_start"))
+    _check_warnings(chk, r3, r, "reporting", ("eemeter.get_reporting_data.gap_at_reporting_end", "eemeter.get_reporting_data.gap_at_reporting_start"))
+    quals = set()
+    for f_ in chk.repo.module(T).all_funcs:
+        for c in calls_in(f_.node):
+            if unparse(c.func) == "EEMeterWarning" and (const_str(kwarg(c, "qualified_name")) or "").startswith(("eemeter.get_baseline_data.", "eemeter.get_reporting_data.")):
+                quals.add(const_str(kwarg(c, "qualified_name")))
+    r3.require(len(quals) == 4, f"{T}|four-distinct-gap-warnings", "transform.py", f"the four gap warnings must have distinct qualified names; found {sorted(quals)}")
